@@ -290,6 +290,9 @@ def bounds(tier):
 # and re-asking on the long-lived programs must not flip.
 
 
+VIOL_CAP = 10 ** 9
+
+
 def graph_items(tier):
   from vk.checks import c07
   items = []
@@ -338,7 +341,7 @@ def graph_work(item):
       st["queries"] += 1
       st["true"] += bool(fresh)
       if not (fwd[k] == rev[k] == again[k] == fresh):
-        if len(viol) < 10:
+        if len(viol) < VIOL_CAP:
           viol.append((spec, "HasCombination(n%d, %s): fresh program %s, after %d earlier queries %s, after the %d later "
                              "queries (reverse order) %s, asked again %s" % (q, list(S), fresh, k, fwd[k],
                                                                              len(queries) - 1 - k, rev[k], again[k]),
